@@ -165,10 +165,28 @@ def check_set_iteration(ctx, num=1):
                 # confirmed exception: one-element pick under len(s) == 1
                 ok = False
                 why = ""
-                if f.qual == "Container.get_pipeline_id" and isinstance(node, ast.Call) and norm.call_name(node) == "list":
+                # a set that is known to hold exactly one element has no order to depend on
+                sname = None
+                if isinstance(node, ast.Call) and node.args:
+                    a0 = node.args[0]
+                    if isinstance(a0, ast.Call) and norm.call_name(a0) == "iter" and a0.args:
+                        a0 = a0.args[0]
+                    sname = norm.U(a0)
+                elif isinstance(node, ast.Assign):
+                    sname = norm.U(node.value)
+                elif isinstance(node, (ast.For, ast.AsyncFor)):
+                    sname = norm.U(node.iter)
+                if sname:
                     g = cfg_of(f, subst_env=False)
-                    if norm.entails(g.facts_at(node), norm.mk_cmp("==", "1", f"len({norm.U(node.args[0])})")):
-                        ok, why = True, "confirmed exception: picks the only element, guarded by len(...) == 1"
+                    st_ = node
+                    while not isinstance(st_, ast.stmt):
+                        st_ = parent(st_)
+                    fs_ = g.facts_at(st_)
+                    one = norm.entails(fs_, norm.mk_cmp("==", "1", f"len({sname})")) or (
+                        (norm.entails(fs_, ("cmp", "<=", f"len({sname})", "1")) or norm.entails(fs_, ("cmp", "<", f"len({sname})", "2")))
+                        and (norm.entails(fs_, ("truth", sname, True)) or norm.entails(fs_, ("cmp", "<", "0", f"len({sname})")) or norm.entails(fs_, ("cmp", "<=", "1", f"len({sname})"))))
+                    if one:
+                        ok, why = True, "picks from a set known to hold exactly one element (guarded by len(...) == 1)"
                 if not ok:
                     n_bad += 1
                 ctx.ob(num, "K11", "no decision or output depends on the iteration order of a set (which follows hash values of random ids / PYTHONHASHSEED)", ok, f, node,
